@@ -34,6 +34,7 @@ type LRule struct {
 	Sal   int64  `json:"sal"`
 	Ops   []Op   `json:"ops"`
 	NoAsg bool   `json:"noasg"` // body without any assignment statement: locals are bound by forRange only (ops FR R H RI)
+	Ret   bool   `json:"ret"`   // the rule ends with `return <value>` (after its last operation)
 }
 
 type Child struct {
@@ -112,7 +113,12 @@ func localsText(rs []LRule) string {
 			case "WM":
 				fmt.Fprintf(&sb, "  %s = mkobj(e, %d)\n", op.Name, n)
 			case "RM":
-				fmt.Fprintf(&sb, "  %s.Tell(e, %d)\n", op.Name, n)
+				if n%2 == 0 {
+					// ... or a field of the object in the local is read through the dotted name
+					fmt.Fprintf(&sb, "  rd(e, %d, %s.V)\n", n, op.Name)
+				} else {
+					fmt.Fprintf(&sb, "  %s.Tell(e, %d)\n", op.Name, n)
+				}
 			case "WN":
 				fmt.Fprintf(&sb, "  %s = mkfn(e, %d)\n", op.Name, n)
 			case "RN":
@@ -136,7 +142,11 @@ func localsText(rs []LRule) string {
 				fmt.Fprintf(&sb, "  rd(e, %d, inj.%s)\n", n, op.Name)
 			}
 		}
-		sb.WriteString("  fin(e)\nend\n")
+		if r.Ret {
+			sb.WriteString("  fin(e)\n  return e + 1\nend\n")
+		} else {
+			sb.WriteString("  fin(e)\nend\n")
+		}
 	}
 	return sb.String()
 }
